@@ -84,6 +84,13 @@ func c07Round(c *Ctx, be string, round int, seed int64) bool {
 	}
 	var stop int32
 	var increments int64
+	var freshCount, sharedIncs int64
+	freshIds := sync.Map{}
+	sdocs := []*d.Document{}
+	for i := 0; i < 4; i++ {
+		sdocs = append(sdocs, d.NewDocumentOf(map[string]interface{}{"_id": fixedId(700000 + i), "tag": "shared", "cnt": int64(0), "x": int64(i)}))
+	}
+	db.Insert("s", sdocs...)
 	finalExpect := sync.Map{} // tag -> expected (count, version) or absent
 	isConflict := func(err error) bool {
 		return err != nil && (strings.Contains(err.Error(), "onflict") || strings.Contains(err.Error(), "retry"))
@@ -103,8 +110,39 @@ func c07Round(c *Ctx, be string, round int, seed int64) bool {
 		wg.Add(1)
 		go func(w int) {
 			defer wg.Done()
+			defer func() {
+				if p := recover(); p != nil {
+					fail(fmt.Sprint("a public operation panicked under concurrent use: ", p))
+				}
+			}()
 			r := rand.New(rand.NewSource(seed + int64(w)*7919))
 			for it := 0; it < 6; it++ {
+				// documents WITHOUT an _id (the id is generated inside the call: whatever state the generator keeps is shared)
+				for f := 0; f < 4; f++ {
+					doc := d.NewDocumentOf(map[string]interface{}{"tag": "fresh", "w": int64(w)})
+					var id string
+					if err := retry(func() error { var e error; id, e = db.InsertOne("s", doc); return e }); err != nil {
+						fail("insert of a document without _id failed: " + err.Error())
+						return
+					}
+					if _, dup := freshIds.LoadOrStore(id, true); dup {
+						fail("two concurrent inserts were given the same generated _id " + id)
+						return
+					}
+					atomic.AddInt64(&freshCount, 1)
+				}
+				// a bulk read-modify-write of the SAME documents from every writer: selection and rewriting are one atomic step
+				if err := retry(func() error {
+					return db.UpdateFunc(query.NewQuery("s").Where(query.Field("tag").Eq("shared")), func(doc *d.Document) *d.Document {
+						n, _ := doc.Get("cnt").(int64)
+						doc.Set("cnt", n+1)
+						return doc
+					})
+				}); err != nil {
+					fail("bulk increment failed: " + err.Error())
+					return
+				}
+				atomic.AddInt64(&sharedIncs, 1)
 				tag := fmt.Sprintf("w%d-%d", w, it)
 				k := 2 + r.Intn(12)
 				docs := []*d.Document{}
@@ -169,6 +207,11 @@ func c07Round(c *Ctx, be string, round int, seed int64) bool {
 		wg.Add(1)
 		go func(rd int) {
 			defer wg.Done()
+			defer func() {
+				if p := recover(); p != nil {
+					fail(fmt.Sprint("a read operation panicked under concurrent use: ", p))
+				}
+			}()
 			lastReg := int64(-1)
 			for atomic.LoadInt32(&stop) == 0 {
 				docs, err := db.FindAll(query.NewQuery("s"))
@@ -185,7 +228,16 @@ func c07Round(c *Ctx, be string, round int, seed int64) bool {
 					byTag[t] = append(byTag[t], doc)
 				}
 				for t, ds := range byTag {
-					if t == "victim" {
+					if t == "victim" || t == "fresh" {
+						continue
+					}
+					if t == "shared" {
+						for _, doc := range ds {
+							if doc.Get("cnt") != ds[0].Get("cnt") {
+								fail("reader saw a partially applied bulk increment of the shared documents")
+								return
+							}
+						}
 						continue
 					}
 					if t == "reg" {
@@ -287,6 +339,21 @@ func c07Round(c *Ctx, be string, round int, seed int64) bool {
 			}
 			return true
 		})
+		if failure == "" {
+			fresh, _ := db.FindAll(query.NewQuery("s").Where(query.Field("tag").Eq("fresh")))
+			if int64(len(fresh)) != atomic.LoadInt64(&freshCount) {
+				failure = fmt.Sprintf("final state: %d documents with generated ids, %d inserts were acknowledged", len(fresh), freshCount)
+			}
+			shared, _ := db.FindAll(query.NewQuery("s").Where(query.Field("tag").Eq("shared")))
+			for _, dd := range shared {
+				if dd.Get("cnt") != atomic.LoadInt64(&sharedIncs) {
+					failure = fmt.Sprintf("lost update: a shared document counts %v after %d acknowledged bulk increments", dd.Get("cnt"), sharedIncs)
+				}
+			}
+			if len(shared) != 4 {
+				failure = fmt.Sprintf("final state: %d shared documents, expected 4", len(shared))
+			}
+		}
 		if n, _ := db.Count(query.NewQuery("s")); failure == "" {
 			all, _ := db.FindAll(query.NewQuery("s"))
 			if n != len(all) {
